@@ -488,9 +488,11 @@ PROPERTIES["C09"] = {
          "encoded": ["nano::linear::function_t::{ctor, do_vgrad}", "nano::linear::predict", "nano::linear::accumulator_t", "nano::sum_reduce", "nano::flatten_iterator_t::{loop, flatten, targets, scaling, batch, cache_*}",
                      "nano::scalar_stats_t::scale", "nano::flatten_loss_t<mse/mae/hinge/squared-hinge>::{value, vgrad}", "nano::dataset_t::{flatten, targets}"]},
         {"engine": "sre", "harness": "C09_gboost", "sources": ["C09_gboost.cpp"],
-         "quick": ["n=3;loss=mse", "n=3;loss=mse;sub=1;batch=2", "n=2;loss=mae;batch=1", "n=3;loss=mae;part=bias", "n=3;loss=mae;part=scale;sub=1", "n=3;loss=mae;part=grads", "n=1;loss=m-hinge;tk=s;part=scale", "n=1;loss=m-hinge;tk=s;part=grads", "n=2;loss=m-hinge;tk=s;part=bias"],
+         "quick": ["n=3;loss=mse", "n=3;loss=mse;sub=1;batch=2", "n=2;loss=mae;batch=1", "n=3;loss=mae;part=bias", "n=3;loss=mae;part=scale;sub=1", "n=3;loss=mse;part=scale;groups=1;unas=2", "n=3;loss=mae;part=scale;groups=1;unas=5", "n=3;loss=mse;part=scale;groups=1;unas=0", "n=3;loss=mse;part=scale;groups=3;unas=0",
+                   "n=3;loss=mae;part=grads", "n=1;loss=m-hinge;tk=s;part=scale", "n=1;loss=m-hinge;tk=s;part=grads", "n=2;loss=m-hinge;tk=s;part=bias"],
          "thorough": ["n=%d;loss=%s;part=%s;sub=%d;batch=%d" % (n, l, p, s, b) for n in (2, 3) for l in ("mse", "mae") for p in ("bias", "scale", "grads") for (s, b) in ((0, 100), (1, 2))] +
-                     ["n=2;loss=m-hinge;tk=s;part=%s" % p for p in ("bias", "scale", "grads")],
+                     ["n=2;loss=m-hinge;tk=s;part=%s" % p for p in ("bias", "scale", "grads")] +
+                     ["n=3;loss=%s;part=scale;groups=%d;unas=%d" % (l, g, u) for l in ("mse", "mae") for (g, u) in ((1, 2), (1, 5), (1, 0), (1, 7), (3, 0), (3, 4), (2, 0))],
          "budget": {"quick": {"deadline_s": 90, "max_paths": 20000}, "thorough": {"deadline_s": 600, "max_paths": 300000}},
          "encoded": ["nano::gboost::bias_function_t::do_vgrad", "nano::gboost::scale_function_t::do_vgrad", "nano::gboost::grads_function_t::{do_vgrad, gradients}", "nano::gboost::accumulator_t", "nano::cluster_t::group",
                      "nano::targets_iterator_t::loop", "nano::sum_reduce"]},
@@ -609,13 +611,14 @@ PROPERTIES["C03"] = {
     "explanation": "C03: bundle_t::{ctor, moveto, append, solve (size<=2 analytic branch), delete_inactive, delete_largest, store/append_aggregate, econverged, sconverged} and solver_ellipsoid_t::do_minimize on symbolic convex functions sum a_i|z_i-b_i| + q/2|z-c|^2.",
     "assumptions": SRE_ASSUME + ["convex test functions with symbolic a_i in [0,8] (sharp: [1,8]), b, c in [-4,4], q in [0,4]", "bundle max_size 2 (multiplier update stays in the analytic 2-point branch; larger bundles need the interior-point QP on symbolic data)"],
     "bounds": {"dims": "1..2", "bundle operations": "<= 3", "ellipsoid": "max_evals 10 (<= 4 cuts), R symbolic in [1e-20,10], eps in [1e-8,1e-3]"},
-    "outside": ["RQB/FPBA1/FPBA2 outer loops (csearch, proximity updates) and their `converged` status", "'ellipsoid always converges within 20000 evaluations' beyond the bounded necessary condition", "bundles with more than 2 points (inner QP)"],
+    "outside": ["RQB/FPBA1/FPBA2 outer loops beyond the bounded end-to-end runs of mode=bsolver (1-D sharp functions, bundle::max_size 2, max_evals 10..20: most optimality obligations come back `unknown` from nlsat and are counted inconclusive; seeded change C03b is not caught)", "'ellipsoid always converges within 20000 evaluations' beyond the bounded necessary condition", "bundles with more than 2 points (inner QP)"],
     "units": [
         {"engine": "sre", "harness": "C03_bundle", "sources": ["C03_bundle.cpp"],
          "quick": ["mode=bundle;d=1;ops=1;pat=1", "mode=bundle;d=1;ops=1;pat=0", "mode=bundle;d=1;ops=2;pat=2;q=0", "mode=bundle;d=1;ops=2;pat=1;q=0", "mode=bundle;d=2;ops=1;pat=1;q=0",
-                   "mode=ellipsoid;d=1", "mode=ellipsoid;d=1;evals=14", "mode=ellipsoid;d=1;zero=1", "mode=ellipsoid;d=1;evals=14;zero=1"],
+                   "mode=ellipsoid;d=1", "mode=ellipsoid;d=1;evals=14", "mode=ellipsoid;d=1;zero=1", "mode=ellipsoid;d=1;evals=14;zero=1", "mode=bsolver;solver=fpba1;d=1;evals=10"],
          "thorough": ["mode=ellipsoid;d=1;zero=1", "mode=ellipsoid;d=1;evals=14;zero=1", "mode=ellipsoid;d=2;zero=1"] + ["mode=bundle;d=1;ops=%d;pat=%d;q=%d" % (o, p, q) for o in (1, 2, 3) for p in range(1 << o) for q in (0, 1)] + ["mode=bundle;d=2;ops=%d;pat=%d;q=0" % (o, p) for o in (1, 2) for p in range(1 << o)] +
-                     ["mode=ellipsoid;d=1", "mode=ellipsoid;d=1;evals=14", "mode=ellipsoid;d=1;evals=20", "mode=ellipsoid;d=2"],
+                     ["mode=ellipsoid;d=1", "mode=ellipsoid;d=1;evals=14", "mode=ellipsoid;d=1;evals=20", "mode=ellipsoid;d=2"] +
+                     ["mode=bsolver;solver=%s;d=1;evals=%d;epsc=%d" % (sv, e, c) for sv in ("rqb", "fpba1", "fpba2") for (e, c) in ((10, 0), (14, 1), (20, 1))],
          "budget": {"quick": {"deadline_s": 50, "max_paths": 5000, "query_s": 8}, "thorough": {"deadline_s": 600, "max_paths": 100000, "query_s": 30}},
          "encoded": ["nano::bundle_t::{bundle_t, moveto, append, solve, delete_inactive, delete_largest, store_aggregate, append_aggregate, econverged, sconverged, smeared_e, smeared_s}",
                      "nano::solver_ellipsoid_t::do_minimize", "nano::solver_t::done", "nano::solver_state_t::update_if_better", "nano::remove_if"]},
